@@ -167,6 +167,7 @@ func ParseEnum(name string) (map[string]int64, error) {
 		}
 		j := i + 1
 		var sb strings.Builder
+		start := j
 		for j < len(args) && args[j] != '\'' {
 			if args[j] == '\\' && j+1 < len(args) {
 				j++
@@ -174,6 +175,7 @@ func ParseEnum(name string) (map[string]int64, error) {
 			sb.WriteByte(args[j])
 			j++
 		}
+		spelled := args[start:min(j, len(args))] // the name as written, escapes included (the library keeps names that way)
 		if j >= len(args) {
 			return nil, fmt.Errorf("enum: unterminated name in %q", args)
 		}
@@ -190,6 +192,7 @@ func ParseEnum(name string) (map[string]int64, error) {
 			return nil, fmt.Errorf("enum: bad value in %q", args)
 		}
 		out[sb.String()] = v
+		out[spelled] = v
 		i = k
 	}
 	return out, nil
